@@ -223,7 +223,7 @@ func genFit(g *Rng, s *shape, thorough bool) record {
 				seen[t] = true
 				vl := g.Pick([]int{0, 1, 1, 2, 4, 16, 255, 256})
 				if g.Intn(40) == 0 {
-					vl = g.Pick([]int{65531, 40000, 32768})
+					vl = g.Pick([]int{65531, 65532, 65535, 40000, 32768, 32767, 4096, 4097}) // up to the end of the 16-bit length field
 				}
 				l = append(l, tlv{t, g.Bytes(vl)})
 			}
@@ -237,7 +237,7 @@ func genFit(g *Rng, s *shape, thorough bool) record {
 				w := s.ftype[lf].width
 				n := g.Pick(bodyLens)
 				if w > 1 && g.Intn(6) == 0 {
-					n = g.Pick([]int{256, 257, 1000, 4096})
+					n = g.Pick([]int{256, 257, 1000, 4095, 4096, 4097, 8192, 8193})
 					if thorough && g.Intn(4) == 0 {
 						n = g.Pick([]int{65535, 65536})
 					}
